@@ -153,6 +153,15 @@ func (voteSet *VoteSet) addVote(vote *Vote) (added bool, err error) {
 	valAddr := vote.ValidatorAddress
 	blockKey := vote.BlockID.Key()
 
+	// A vote from the network whose index or address cannot belong to this
+	// validator set is an invalid vote, not a programming error.
+	if valIndex < 0 || valIndex >= voteSet.valSet.Size() {
+		return false, ErrVoteInvalidValidatorIndex
+	}
+	if len(valAddr) == 0 {
+		return false, ErrVoteInvalidValidatorAddress
+	}
+
 	// Ensure that validator index was set
 	if valIndex < 0 || len(valAddr) == 0 {
 		panic("Validator index or address was not set in vote.")
